@@ -2,7 +2,7 @@
 # Final confirmation as the brief prescribes: apply each kept change to /repo itself, run the check of the
 # property it breaks (quick tier), undo it straight afterwards. Writes seeded/<id>/repo_run.json.
 cd /verif
-for d in seeded/C*; do
+for d in ${SEEDLIST:-seeded/C*}; do
   id=$(basename $d); prop=${id:0:3}
   [ -f $d/repo_run.json ] && continue
   git -C /repo apply $PWD/$d/patch.diff || { echo "{\"applies\": false}" > $d/repo_run.json; git -C /repo checkout -- .; continue; }
